@@ -4,7 +4,7 @@
    directives of our own. *)
 Require Extraction.
 Require Import ExtrOcamlBasic.
-From PF Require Import Opcodes RefTable Config Sim Ref Lex Envelope Oracles Check.
+From PF Require Import Opcodes RefTable Config Sim Ref Lex Envelope Oracles Check Entropy Mutators Gen.
 Extraction Language OCaml.
 Extraction "model.ml"
   all_opcodes op_name op_index op_eqb
@@ -15,4 +15,11 @@ Extraction "model.ml"
   lex_one lex_all encode serialize
   emitsb out_ok invb
   oracle_C01 oracle_C02 oracle_C03 oracle_C04 oracle_C05 oracle_C06 oracle_C10 oracle_C11
-  s1_step s1_tail_step.
+  lex_exact s1_step s1_tail_step
+  generate_internal run_history gen_new to_signed to_unsigned utf8_encode
+  choose_index gen_range gen_uint gen_bool gen_i32 gen_i64 gen_f64 should_mutate gen_bytes gen_ascii_char
+  mutate_int_one mutate_long_one mutate_float_one mutate_seq_one mutate_memo_one post_one
+  mutate_int mutate_float mutate_string mutate_bytes mutate_memo_index post_process
+  ok_choose_index ok_gen_range ok_ascii ok_bytes
+  contract_int contract_float contract_seq contract_memo contract_post
+  applies_int applies_float applies_seq applies_memo int_boundaries long_boundaries.
